@@ -120,3 +120,12 @@ def _(eng, m, g, a):
     if eng.branch(eng.binop("Lt", s, e)):
         r.f[0] = eng.binop("Add", s, Sc(s.ty, 1)); return some(s)
     return none()
+
+@model(r"^PeekMoreIterator::(peek|peek_next|peek_nth)$")
+def _(eng, m, g, a):
+    pm = deref(a[0]); k = 0 if m.group(1) == "peek" else (a[1].v if m.group(1) == "peek_nth" else getattr(pm, "cursor", 0) + 1)
+    if m.group(1) == "peek_next": pm.cursor = k
+    while len(pm.queue) <= k:
+        x = pm.it.next(eng); pm.queue.append(none() if x is None else some(x))
+    q = pm.queue[k]
+    return none() if q.idx == 0 else some(Slot(q.f, 0))
